@@ -217,8 +217,8 @@ func NewMemKV(on func(puts map[string][]byte, dels [][]byte, kind string)) stora
 // WStats collects coverage.
 type WStats struct {
 	Traces, Events, Panics, Commits, GCs, Owners, Rollbacks, Forks int
-	Distinct                                                map[string]bool
-	Modes                                                   map[string]int
+	Distinct                                                       map[string]bool
+	Modes                                                          map[string]int
 }
 
 type wrun struct {
@@ -617,6 +617,100 @@ func GenWMPT(r *rand.Rand, mode string) WHist {
 		}
 	}
 	h.Ops = append(h.Ops, WOp{Op: "commit", Level: r.Intn(3)}, WOp{Op: "gc"}, WOp{Op: "gc"}, WOp{Op: "owners"})
+	return h
+}
+
+// GenWMPTReturn draws a "state-return" history: the trie comes back to a content X it had before - X was committed, or only
+// observed (root hash or proofs read while the changes were uncommitted, which caches the hashes of a state that is never
+// stored) - with 0..2 garbage-collection passes in between and 1..2 after.  Values are never shared between keys and never
+// re-used except by the return itself.  Content-addressed garbage collection must not remove what a later commit brought back.
+func GenWMPTReturn(r *rand.Rand) WHist {
+	h := WHist{Mode: "return"}
+	h.Uni, h.Sub = PickUniverse(r, 8)
+	nk := 2 + r.Intn(5)
+	uniq := 0
+	bases := []string{"a", "bb", "ccc"}
+	fresh := func(k int) string {
+		uniq++
+		return fmt.Sprintf("%s#%d.%d", bases[r.Intn(len(bases))], k, uniq)
+	}
+	cur := map[int]string{}
+	set := func(k int, v string) {
+		if v == "" {
+			delete(cur, k)
+			h.Ops = append(h.Ops, WOp{Op: "delete", K: k})
+			return
+		}
+		cur[k] = v
+		h.Ops = append(h.Ops, WOp{Op: "update", K: k, V: v})
+	}
+	change := func() {
+		k := r.Intn(nk)
+		if _, ok := cur[k]; ok && r.Intn(3) == 0 {
+			set(k, "")
+			return
+		}
+		set(k, fresh(k))
+	}
+	commit := func() {
+		h.Ops = append(h.Ops, WOp{Op: "commit", Level: []int{0, 0, 1, 3, 64}[r.Intn(5)]})
+	}
+	gcs := func(n int) {
+		for i := 0; i < n; i++ {
+			h.Ops = append(h.Ops, WOp{Op: "gc"})
+		}
+	}
+	// base
+	if nb := r.Intn(4); nb > 0 {
+		for i := 0; i < nb; i++ {
+			set(r.Intn(nk), fresh(i))
+		}
+		if r.Intn(4) > 0 {
+			commit()
+			gcs(r.Intn(3))
+		}
+	}
+	// -> X
+	for i := 0; i < 1+r.Intn(2); i++ {
+		change()
+	}
+	x := map[int]string{}
+	for k, v := range cur {
+		x[k] = v
+	}
+	switch r.Intn(3) {
+	case 0:
+		commit()
+		gcs(r.Intn(3))
+	case 1:
+		h.Ops = append(h.Ops, WOp{Op: "readroot"})
+	default:
+		h.Ops = append(h.Ops, WOp{Op: "owners"})
+	}
+	// -> Y
+	for i := 0; i < 1+r.Intn(3); i++ {
+		change()
+	}
+	commit()
+	gcs(r.Intn(3))
+	// back to X
+	var diff []int
+	for k := 0; k < nk; k++ {
+		if cur[k] != x[k] {
+			diff = append(diff, k)
+		}
+	}
+	r.Shuffle(len(diff), func(i, j int) { diff[i], diff[j] = diff[j], diff[i] })
+	for _, k := range diff {
+		set(k, x[k])
+	}
+	commit()
+	gcs(1 + r.Intn(2))
+	h.Ops = append(h.Ops, WOp{Op: "owners"})
+	if r.Intn(2) == 0 {
+		gcs(1)
+		h.Ops = append(h.Ops, WOp{Op: "owners"})
+	}
 	return h
 }
 
